@@ -11,6 +11,9 @@ EXTENDS Pattern, Json, IOUtils
 Trace == ndJsonDeserialize(IOEnv.TRACE_FILE)
 VARIABLES l, bad, stats
 vars == <<l, bad, stats>>
+\* The monitor is a deterministic chain, one state per consumed event: fingerprinting the position alone (cfg: VIEW TraceView)
+\* keeps validation linear however large `bad`, the references or the block grow.
+TraceView == l
 
 Pat == /\ l <= Len(Trace) /\ Trace[l].ev = "Pat" /\ l' = l + 1
        /\ LET e == Trace[l]  c == e.c IN
